@@ -18,6 +18,7 @@ def run(repo, report, tier):
     report.rule("C10.R5", "the renaming placeholders that record what earlier modifiers did ({cut_prefix}, {cut_suffix}, {adapter_name}, {match_sequence}) are filled by the same function of the modification info in the single-end and in the paired-end renamer",
                 "a paired-end header shows another (or no) removed piece than the single-end header for the same read")
     report.guard("C10.R5", "renamers", r4_placeholders, repo, report)
+    report.guard("C10.R5", "generated rename function", r5_generated_names, repo, report)
     report.rule("C10.R6", "a step 'sees exactly the output of the preceding steps': the modifiers that act on the read alone (-u/-U, -q, --nextseq-trim, --poly-a, --trim-n, --length, --length-tag, --strip-suffix, --zero-cap) do not consult the per-read bookkeeping (info) to decide whether or how to act",
                 "a modifier skips reads depending on what an earlier step recorded (e.g. --length-tag keeps a stale length when no adapter matched)")
     report.guard("C10.R6", "read-only modifiers", r6_info_independent, repo, report)
@@ -136,3 +137,60 @@ def r6_info_independent(repo, report):
                   expected="no attribute of the ModificationInfo is read (recording what was cut, e.g. info.cut_prefix = ..., is fine)",
                   why="" if ok else f"{cname} consults {(reads + passed + tested)[0]}: whether or how it acts depends on an earlier step's bookkeeping, not on the read it receives")
     report.floor("C10.R6", "read-only modifiers", n, 9)
+
+
+def r5_generated_names(repo, report):
+    """Renamer.compile_rename_function writes the rename function as text: one expression per placeholder, plus helper
+    lines that are emitted only for some templates.  Every name a placeholder's expression reads must be a parameter of
+    the generated function or be assigned by a helper line that is emitted whenever that placeholder is used - otherwise
+    the template is accepted and the first read raises NameError."""
+    c, fn = repo.need_method("Renamer", "compile_rename_function")
+    table = None
+    for n in ast.walk(fn):
+        if isinstance(n, ast.Assign) and isinstance(n.value, ast.Dict) and n.value.keys and all(isinstance(k, ast.Constant) and isinstance(k.value, str) for k in n.value.keys) and all(isinstance(v, ast.Constant) and isinstance(v.value, str) for v in n.value.values):
+            table = {k.value: v.value for k, v in zip(n.value.keys, n.value.values)}
+    header = [x.value for x in ast.walk(fn) if isinstance(x, ast.Constant) and isinstance(x.value, str) and x.value.startswith("def ")]
+    if table is None or len(header) != 1:
+        raise Unrecognised("compile_rename_function: literal code table / 'def ...' line not found", repo.loc(fn))
+    try:
+        gparams = {a.arg for a in ast.parse(header[0] + "\n  pass").body[0].args.args}
+    except SyntaxError:
+        raise Unrecognised("compile_rename_function: generated header does not parse", repo.loc(fn))
+    # helper lines: lines.append("<assignment>") directly under `if "<p>" in placeholders or ...`
+    helpers = []  # (names bound, placeholders whose use triggers the line | None for unconditional)
+    for n in ast.walk(fn):
+        if isinstance(n, ast.Call) and isinstance(n.func, ast.Attribute) and n.func.attr == "append" and n.args and isinstance(n.args[0], ast.Constant) and isinstance(n.args[0].value, str):
+            text = n.args[0].value.strip()
+            try:
+                st = ast.parse(text).body[0]
+            except (SyntaxError, IndexError):
+                continue
+            if not isinstance(st, ast.Assign):
+                continue
+            bound = {x.id for t in st.targets for x in ast.walk(t) if isinstance(x, ast.Name)}
+            cond = None
+            par = getattr(n, "_parent", None)
+            while par is not None and par is not fn:
+                if isinstance(par, ast.If):
+                    trig = {x.left.value for x in ast.walk(par.test) if isinstance(x, ast.Compare) and len(x.ops) == 1 and isinstance(x.ops[0], ast.In) and isinstance(x.left, ast.Constant) and isinstance(x.left.value, str)}
+                    only_or = not any(isinstance(x, ast.BoolOp) and isinstance(x.op, ast.And) for x in ast.walk(par.test)) and not any(isinstance(x, ast.UnaryOp) and isinstance(x.op, ast.Not) for x in ast.walk(par.test)) and not any(isinstance(x, ast.Compare) and isinstance(x.ops[0], ast.NotIn) for x in ast.walk(par.test))
+                    cond = trig if only_or else set()
+                    break
+                par = getattr(par, "_parent", None)
+            helpers.append((bound, cond))
+    import builtins
+    bad = []
+    for ph, expr in sorted(table.items()):
+        try:
+            free = {x.id for x in ast.walk(ast.parse(expr, mode="eval")) if isinstance(x, ast.Name)}
+        except SyntaxError:
+            bad.append({"placeholder": ph, "problem": "expression does not parse"})
+            continue
+        for name in sorted(free - gparams):
+            if hasattr(builtins, name):
+                continue
+            if not any(name in b and (cnd is None or ph in cnd) for b, cnd in helpers):
+                bad.append({"placeholder": ph, "reads": name, "defined_when": [sorted(cnd) if cnd is not None else "always" for b, cnd in helpers if name in b]})
+    report.ob("C10.R5", "generated rename function: every name a placeholder reads is defined", not bad and len(table) >= 6, facts={"placeholders": sorted(table), "parameters": sorted(gparams), "problems": bad[:3]}, loc=repo.loc(fn),
+              expected="a placeholder's expression reads only parameters of the generated function and names assigned by a helper line emitted whenever the placeholder is used",
+              why=(f"{{{bad[0]['placeholder']}}} reads '{bad[0].get('reads')}', which is assigned only when {bad[0].get('defined_when')} is in the template: a template with {{{bad[0]['placeholder']}}} alone raises NameError on the first read" if bad else ""))
